@@ -49,6 +49,57 @@ def flag_untils(rng, n):
     return out
 
 
+def precreated_conditions(ctx, n):
+    """directed family (direct API): the condition object is created AHEAD of time (`full = level >= 10`, `ready = flag`,
+    a date), its ingredients change a few times while nobody uses it, and only then it guards an until-block: the block
+    ends at the first moment from its entry on at which the condition holds"""
+    import usim
+    from usim import time, until, Tracked, Flag
+    rng = ctx.rng
+    for _ in range(n):
+        kind = rng.choice(['tracked', 'tracked', 'flag', 'notflag', 'cmp2'])
+        level, other, flag = Tracked(0), Tracked(5), Flag()
+        cond = {'tracked': level >= 10, 'flag': flag, 'notflag': ~flag, 'cmp2': level > other}[kind]
+        pre = rng.choice([0, 1, 2, 3])          # changes while the condition is unused
+        enter, fire = 5, rng.choice([6, 8])
+        case = {'precreated_condition': kind, 'changes_before_use': pre, 'enters_at': enter, 'turns_true_at': fire}
+        log = []
+
+        async def changer():
+            for i in range(pre):
+                await (time + 1)
+                await level.set(i + 1)
+                await other.set(5 + i)
+                if kind == 'notflag':
+                    await flag.set(True)
+            if kind == 'notflag':
+                await (time == 4)
+                await flag.set(True)
+            await (time == fire)
+            if kind in ('tracked', 'cmp2'):
+                await level.set(20)
+            elif kind == 'flag':
+                await flag.set(True)
+            else:
+                await flag.set(False)
+
+        async def user():
+            await (time == enter)
+            async with until(cond):
+                await (time + 50)
+            log.append(time.now)
+        try:
+            usim.run(changer(), user())
+        except BaseException as e:   # noqa
+            ctx.fail(case, 'raised %r' % (e,), family='precreated-conditions')
+            continue
+        ctx.count(case, nontrivial=True)
+        ctx.bump('family:precreated-conditions')
+        if log != [fire]:
+            ctx.fail(case, 'the block entered at %r was left at %r; its condition turned true at %r' % (enter, log, fire),
+                     family='precreated-conditions')
+
+
 def teardown_spawns(rng, n):
     """directed family: an until-block ended by its notification while a child reacts to being closed by spawning into
     that very scope from its cleanup code: "its children are closed" includes that such a late payload never runs"""
@@ -73,6 +124,7 @@ def teardown_spawns(rng, n):
 
 def run(ctx):
     machine_prop.run(ctx, FAMILIES, MONITORS + ['C04'], extra_scenarios=flag_untils(ctx.rng, ctx.n(60, 1200)))
+    precreated_conditions(ctx, ctx.n(30, 400))
     # until-blocks on condition objects that an earlier / nested simulation has used already (family of C01)
     from harness.props import C01
     C01.reused_conditions(ctx, ctx.n(20, 300))
